@@ -57,7 +57,7 @@ def _case(draw, tier):
     kind = draw(st.sampled_from(ops.KINDS))
     n = content["n"] if "n" in content else len(content["hex"]) // 2
     offset = draw(st.one_of(st.just(0), st.just(n), st.integers(0, max(n, 1)))) if kind in (
-        "file", "bytesio", "bufreader", "rwfile") else 0
+        "file", "bytesio", "bufreader", "rwfile", "shortreads") else 0
     with_pid = draw(st.sampled_from([True, True, True, False]))
     reject_first = draw(st.sampled_from([None, None, None, "size", "cks"])) if with_pid else None
     alphabet = _sharing_ops if draw(st.integers(0, 3)) == 0 else _other_ops
